@@ -180,6 +180,30 @@ def run(R):
         R.gate("C07.reg.store.gate", vsr, CallSink(PUT), [[CallGuard([PV + "register_validation"], ("Ok", "Some"), "register_validation is Ok(Some(_))")]],
                descr="register stored only when validation produced an update")
 
+    # (3b) a client update of a mutable kind is acknowledged only with the verdict of its validate-and-store function
+    import tables as T
+    from props.C03 import KIND, STORE_FNS
+    from props.C04 import ARMS as KARMS, VSR, STORE
+    vs = R.body("C07.no-bypass", VSR)
+    if vs is not None:
+        prep(vs)
+        g = cfg_of(vs)
+        arms, _ = T.arm_targets(F, vs, KIND)
+        any_store = CallSink(*STORE_FNS)
+        n = 0
+        okb = True
+        for v, want in KARMS[VSR].items():
+            if want in (None, "chunk") or not arms or v not in arms:
+                continue
+            n += 1
+            starts = tuple(arms[v])
+            stores = set(b for b in any_store.blocks(vs) if b in g.reach(starts))
+            early = [b for b in RetSink("Ok").blocks(vs) if b in g.reach(starts, avoid=stores)]
+            if early:
+                okb = False
+                R.viol("C07.no-bypass", "early-ok:%s" % v, "a client %s can be acknowledged (Ok) without reaching %s" % (v, STORE[want].split("::")[-1]), vs, g.term(early[0]).get("l"))
+        R.inst("C07.no-bypass", "K5 must-follow", "mutable kinds on the client path: the only accepting outcome is the validate-and-store function's verdict", n, okb)
+
     # (4) check-then-act
     wrappers = read_wrappers(F)
     for nm, fn in (("scratchpad", PV + "validate_and_store_scratchpad_record"), ("register", PV + "validate_and_store_register"),
